@@ -736,6 +736,13 @@ def _hit_table(ctx, idcol, facts=True):
         # the properties' own quantifier: hit heights in [0, 100000) ft
         ctx.assume(Forall(0, n, lambda i: Implies(Not(hn[i]), And(h[i] >= 0, h[i] < 100000)), name='hr'))
     ctx.ghost['hits'] = dict(n=n, ceilo=ceilo, dt=dt, h=h, hn=hn, ty=ty, ids=ids, frame=fr)
+
+    def ext(m):
+        ev = lambda t: smt.z3val_to_py(m.eval(t, model_completion=True))
+        ln = ev(n)
+        return [{'ceilo': ev(ceilo[j]), 'dt': ev(dt[j]), 'height': None if ev(hn[j]) else ev(h[j]), 'type': ev(ty[j]), idcol: ev(ids[j])}
+                for j in range(min(int(ln), 8))]
+    ctx.extractors['hits'] = ext
     return fr
 
 
